@@ -4,7 +4,7 @@ from __future__ import annotations
 
 from fractions import Fraction as F
 
-ROWS = [4, 8, 12, 16, 20, 24, 28, 32, 48, 64, 96, 192]
+ROWS = [4, 8, 12, 16, 20, 24, 28, 32, 48, 64, 96, 192, 36, 40, 44, 256, 384, 768]  # any multiple of 4; the last three are finer than the 1/48-beat grid
 TYPES = [("dance-single", 4), ("dance-double", 8), ("dance-solo", 6), ("dance-threepanel", 3),
          ("dance-couple", 4), ("dance-routine", 8), ("kb7-single", 7),
          ("pump-single", 5), ("pnm-nine", 9), ("bm-double5", 10), ("techno-double8", 16), ("custom-18k", 18)]
